@@ -1,3 +1,4 @@
+import Sigverif.Model.ReadSig
 /-
   Model/ReadSigText.lean — the first two steps of `support.read_sig`, at the level of characters:
   `sig_str.split(',')` and `re_paramname.match(param).groups()` with
@@ -66,5 +67,48 @@ def matchParam (s : List Char) : Option (List Char × Option (List Char) × Opti
 /-- what the loop of `read_sig` iterates over: the non-empty comma-separated parts, each taken apart -/
 def splitParams (s : List Char) : List (Option (List Char × Option (List Char) × Option (List Char))) :=
   ((splitComma s).filter (fun w => !w.isEmpty)).map matchParam
+
+
+/-! ### from the three groups to a piece (`re_posoarg`, `lstrip('*')`, the comparisons on `arg`) -/
+
+/-- `arg.lstrip('*')` and how many stars went -/
+def lstripStars : List Char → Nat × List Char
+  | '*' :: cs => let (k, r) := lstripStars cs; (k + 1, r)
+  | cs => (0, cs)
+
+/-- `re_posoarg = ^<(.*)>$` -/
+def chevronInner (arg : List Char) : Option (List Char) :=
+  match arg with
+  | '<' :: rest => if rest.getLast? = some '>' then some rest.dropLast else none
+  | _ => none
+
+/-- names and texts become tokens through an encoding `enc` (any injective one; the driver uses positional notation) -/
+def toPiece (enc : List Char → Nat) (g : List Char × Option (List Char) × Option (List Char)) : Option Piece :=
+  let (arg, ann, dflt) := g
+  let a := ann.map enc
+  let d := dflt.map enc
+  match chevronInner arg with
+  | some inner =>
+    -- `name = arg = inner`: the piece-level model covers an ordinary name between the chevrons
+    if inner = ['/'] || inner.head? = some '*' then none else some (.chev (enc inner) a d)
+  | none =>
+    if arg = ['/'] then (if a.isNone && d.isNone then some .slash else none)
+    else
+      let (k, name) := lstripStars arg
+      if k = 0 then some (.plain (enc name) a d)
+      else if name.isEmpty then (if a.isNone && d.isNone then some .bare else none)
+      else if k = 1 then some (.star false (enc name) a d)
+      else if k = 2 then some (.star true (enc name) a d)
+      else none
+
+/-- the whole of `read_sig` from the text (`none`: a part does not match `re_paramname`, which makes `read_sig` raise
+    AttributeError, or a part is outside what the piece-level model covers) -/
+def readSigText (enc : List Char → Nat) (ua upo ukw : Bool) (text : List Char) : Option RS := do
+  let groups ← (splitParams text).mapM id
+  let pieces ← groups.mapM (toPiece enc)
+  pure (readSig ua upo ukw pieces)
+
+/-- positional notation over the code points: injective -/
+def encText (cs : List Char) : Nat := cs.foldl (fun a c => a * 1114112 + c.toNat + 1) 0
 
 end SV
